@@ -82,6 +82,10 @@ pub fn gen(rng: &mut Rng, kind: &str, size: &str, profile: &str) -> Scenario {
         "churn" => return gen_churn(rng, kind, size),
         "limit0" => return gen_limit0(rng, kind, size),
         "manygroups" => return gen_manygroups(rng, kind, size),
+        "stale_big" => {
+            let n = 190 + rng.below(120) as u32;
+            return gen_stale_n(rng, kind, n);
+        }
         "panic" | "dpanic" => {
             // a mixed scenario in which one child panics in a poll ("panic") or one child's destructor panics ("dpanic")
             let mut sc = gen(rng, kind, size, "mix");
@@ -398,13 +402,16 @@ fn gen_oscillate(rng: &mut Rng, kind: &str, size: &str) -> Scenario {
     let stream = is_stream_kind(kind);
     sc.ctor = if bounded { "with_capacity" } else if rng.pct(50) { "new" } else { "with_capacity" }.into();
     let peak: u32 = if real { rng.pick(&[1u32, 5, 33, 70, 150, 300]) } else { 1 + rng.below(6) as u32 };
+    let peak = if real && rng.pct(20) { rng.pick(&[100u32, 150]) } else { peak };
     sc.cap = if bounded { peak as usize } else { 1 + rng.below(4) as usize };
     if kind == "mb" {
         sc.ctor = "from_iter".into();
         sc.cap = peak as usize;
     }
     // (half of the real-size runs oscillate long enough for a per-cycle allocation to exceed the logarithmic bound)
-    let cycles = if real { if rng.pct(50) { 6 + rng.below(10) } else { 40 + rng.below(30) } } else { 2 + rng.below(4) };
+    // and every fifth one runs for 150-250 cycles at a peak of 100-150 (three groups), where even one allocation per few cycles shows)
+    let long = real && (peak == 100 || (peak == 150 && rng.pct(50)));
+    let cycles = if long { 150 + rng.below(100) } else if real { if rng.pct(50) { 6 + rng.below(10) } else { 40 + rng.below(30) } } else { 2 + rng.below(4) };
     let mut next = 1u32;
     let ready = |_c: u32| vec![Step { acts: vec![], resp: if stream { "E" } else { "R" }.into() }];
     if kind == "mb" {
@@ -414,20 +421,52 @@ fn gen_oscillate(rng: &mut Rng, kind: &str, size: &str) -> Scenario {
             next += 1;
         }
     }
-    for cy in 0..cycles {
+    // first-in-first-out turnover (half of the runs of the growable kinds): the children stay pending until the environment
+    // completes them, oldest first, so that the older groups drain completely while the newest ones still hold futures
+    if !bounded && rng.pct(50) {
+        let mut q: std::collections::VecDeque<u32> = std::collections::VecDeque::new();
+        // a sliding window (a few completions per cycle, refilled at once) or larger gulps
+        let window = rng.pct(60);
+        let cycles = if window { cycles * 6 } else { cycles };
+        for _cy in 0..cycles {
+            let fill = if window || rng.pct(70) { peak } else { 1 + rng.below(peak as u64) as u32 };
+            while (q.len() as u32) < fill {
+                sc.scripts.insert(next, vec![]);
+                sc.ops.push(Op::Push { c: next, front: false, r#try: false });
+                q.push_back(next);
+                next += 1;
+            }
+            sc.ops.push(Op::Poll { w: 1 });
+            let k = if window { (1 + rng.below(8) as usize).min(q.len()) } else if rng.pct(30) { q.len() } else { 1 + rng.below(q.len() as u64) as usize };
+            for _ in 0..k {
+                let c = q.pop_front().unwrap();
+                sc.ops.push(Op::Complete { c });
+                sc.ops.push(Op::Poll { w: 1 });
+            }
+            if q.is_empty() {
+                sc.ops.push(Op::Poll { w: 1 });
+            }
+        }
+        sc.tail = "drain".into();
+        return sc;
+    }
+    // `live` children are held at the start of a cycle; fill up to `fill`, then drain down to `drain_to`
+    let mut live: u32 = if kind == "mb" { peak } else { 0 };
+    for _cy in 0..cycles {
         let fill = if rng.pct(70) { peak } else { 1 + rng.below(peak as u64) as u32 };
-        let have = if kind == "mb" && cy == 0 { peak } else { 0 };
-        for _ in have..fill {
+        while live < fill {
             sc.scripts.insert(next, ready(next));
             sc.ops.push(Op::Push { c: next, front: false, r#try: bounded });
             if rng.pct(10) {
                 sc.ops.push(Op::Wclone { c: next.saturating_sub(1).max(1) });
             }
             next += 1;
+            live += 1;
         }
-        let drain_to = if rng.pct(60) { 0 } else { rng.below(fill as u64) as u32 };
-        for _ in drain_to..fill {
+        let drain_to = if rng.pct(60) { 0 } else { rng.below(live as u64) as u32 };
+        while live > drain_to {
             sc.ops.push(Op::Poll { w: 1 });
+            live -= 1;
             if rng.pct(10) {
                 sc.ops.push(Op::Wdrop { c: 1 + rng.below(next as u64) as u32 });
             }
